@@ -299,6 +299,14 @@ func ScaledFamilies(big bool) []Scaled {
 	}
 	for _, L := range lens {
 		add(fmt.Sprintf("strlen-%d", L), `print "`+rep("s", L)+`"`)
+		if L <= 4096 {
+			// a diagnostic that quotes a token of that length (identifier, number, string), with more source after it
+			add(fmt.Sprintf("longtoken-diag-ident-%d", L), "print 1\nvar x = ) "+rep("i", L)+"\nprint 2")
+			add(fmt.Sprintf("longtoken-diag-at-ident-%d", L), "print 1\nprint = "+rep("j", L)+" + 1\nprint 2")
+			add(fmt.Sprintf("longtoken-diag-int-%d", L), "print 1\nvar "+rep("7", L)+" = 1\nprint 2")
+			add(fmt.Sprintf("longtoken-diag-str-%d", L), "print 1\nvar \""+rep("é", L/2)+"\" = 1\nprint 2")
+			add(fmt.Sprintf("longtoken-diag-sel-%d", L), "def b {}\nbind b:"+rep("k", L)+" -> struct")
+		}
 		add(fmt.Sprintf("identlen-%d", L), `def b { `+rep("i", L)+` = 1 }`)
 		add(fmt.Sprintf("blocktype-%d", L), `def `+rep("t", L)+` {}`)
 		add(fmt.Sprintf("blockname-%d", L), `def b "`+rep("n", L)+`" { print NAME }`)
